@@ -1,6 +1,8 @@
 package main
 
 import (
+	"context"
+	"io"
 	"time"
 
 	"go.einride.tech/xsens"
@@ -46,6 +48,81 @@ func init() {
 					}
 				}
 			}
+		}
+		// the same through the wire and the client: the record is sent as a UTCTime packet of a measurement message
+		// that also holds packets of other data types (each of the 512 group/type values in turn, except UTCTime's own;
+		// most have no record in the client), and is read back from the client after the scan loop
+		nthType := 0
+		wire := func(t time.Time) {
+			var u xsens.UTCTime
+			u.UnmarshalTime(t)
+			pkt, err := u.MarshalMTData2Packet(xsens.DataIdentifier{DataType: xsens.DataTypeUTCTime})
+			if err != nil {
+				pkt = nil
+			}
+			other := func(known bool) []byte {
+				var dt xsens.DataType
+				for {
+					if known { // the scan loop stops at a data type the client has no record for
+						dt = supportedTypes[c.rng.Intn(len(supportedTypes))]
+						if dt != xsens.DataTypeUTCTime {
+							break
+						}
+						continue
+					}
+					v := nthType % 512
+					nthType++
+					dt = xsens.DataType((v&0x1f)<<11 | (v>>5)<<4)
+					if dt != xsens.DataTypeUTCTime {
+						break
+					}
+				}
+				id := xsens.DataIdentifier{DataType: dt, CoordinateSystem: xsens.CoordinateSystem(c.rng.Intn(4) << 2), Precision: xsens.Precision(c.rng.Intn(4))}
+				n := int(id.DataSize())
+				if n == 0 {
+					n = []int{12, 4, 0, 1 + c.rng.Intn(40)}[c.rng.Intn(4)]
+				}
+				p := xsens.NewMTData2Package(uint8(n), id)
+				c.rng.Read(p[3:])
+				return p
+			}
+			var payload []byte
+			switch c.rng.Intn(3) {
+			case 0:
+				payload = append(append(payload, pkt...), other(false)...)
+			case 1:
+				payload = append(append(payload, other(true)...), pkt...)
+			default:
+				payload = append(append(append(payload, other(true)...), pkt...), other(false)...)
+			}
+			port := &scriptedPort{r: &chunkReader{data: xsens.NewMessage(xsens.MessageIdentifierMTData2, payload), final: io.EOF}}
+			cl := xsens.NewClient(port)
+			delivered := 0
+			protect(func() {
+				if err := cl.Receive(context.Background()); err != nil {
+					return
+				}
+				for cl.ScanMeasurementData() {
+					if _, ok := cl.MeasurementData().(*xsens.UTCTime); ok {
+						delivered++
+					}
+				}
+			})
+			rec := *cl.UTCTime()
+			back := rec.Time()
+			if delivered != 1 {
+				// delivered twice or never: not the record that was sent
+				rec.Ns, back = 0xffffffff, time.Unix(0, 0)
+			}
+			_, off := t.Zone()
+			c.emit("t2r", tup(zs(t.Unix()), zs(int64(t.Nanosecond())), zs(int64(off)), recTerm(&rec), instTerm(back)))
+			c.count("through-client")
+		}
+		for i := 0; i < c.pick(1100, 6000); i++ {
+			first := time.Date(1, 1, 1, 0, 0, 0, 0, time.UTC).Unix()
+			sec := first + c.rng.Int63n(time.Date(9999, 12, 31, 23, 59, 59, 0, time.UTC).Unix()-first)
+			ns := []int64{0, 999999999, c.rng.Int63n(1000000000)}[c.rng.Intn(3)]
+			wire(time.Unix(sec, ns).In(time.FixedZone("w", zones[c.rng.Intn(len(zones))])))
 		}
 		lo := time.Date(1, 1, 1, 0, 0, 0, 0, time.UTC).Unix()
 		hi := time.Date(9999, 12, 31, 23, 59, 59, 0, time.UTC).Unix()
